@@ -202,6 +202,15 @@ theorem searchPos_pv (key : Edge α) (l : List Nat) (i : Nat) :
   | nil => unfold searchPos; pres_auto
   | cons k ks ih => unfold searchPos; pres_auto
 
+theorem noteMono_pv (key : Edge α) (l : List Nat) :
+    Pres (PVInv V) AnyErr (fun _ => True) (noteMono key l : SM α _) := by
+  apply Pres.intro; intro s hs
+  exact ⟨⟨hs.verts, hs.nodes, hs.edges, hs.out⟩, trivial⟩
+
+theorem search_pv (key : Edge α) (l : List Nat) :
+    Pres (PVInv V) AnyErr (fun _ => True) (search key l : SM α _) := by
+  unfold search; pres_auto
+
 theorem activeInsert_pv (ei : Nat) :
     Pres (PVInv V) AnyErr (fun _ => True) (activeInsert ei : SM α _) := by
   unfold activeInsert; pres_auto
